@@ -53,3 +53,63 @@ impl IfPredicate {
         ensures r == self.holds(*intf),
     { unimplemented!() }
 }
+
+// ---- del_interface_addr's environment ----
+impl IfAddr {
+    pub uninterp spec fn ip_spec(&self) -> IpAddr;
+    #[verifier::external_body]
+    pub fn ip(&self) -> (r: IpAddr) ensures r == self.ip_spec() { unimplemented!() }
+}
+impl MyIntf {
+    // whether the interface still has an address of that family (real: iterator find over `addrs`)
+    pub open spec fn has_v4(&self) -> bool { exists|a: IfAddr| self.addrs@.contains(a) && a.ip_spec() is V4 }
+    pub open spec fn has_v6(&self) -> bool { exists|a: IfAddr| self.addrs@.contains(a) && a.ip_spec() is V6 }
+    #[verifier::external_body]
+    pub fn next_ifaddr_v4(&self) -> (r: Option<&IfAddr>) ensures r is Some <==> self.has_v4() { unimplemented!() }
+    #[verifier::external_body]
+    pub fn next_ifaddr_v6(&self) -> (r: Option<&IfAddr>) ensures r is Some <==> self.has_v6() { unimplemented!() }
+}
+pub struct IoError {}
+impl PktInfoUdpSocket {
+    #[verifier::external_body]
+    pub fn leave_multicast_v4(&self, group: &std::net::Ipv4Addr, addr: &std::net::Ipv4Addr) -> (r: core::result::Result<(), IoError>) { unimplemented!() }
+    #[verifier::external_body]
+    pub fn leave_multicast_v6(&self, group: &std::net::Ipv6Addr, if_index: u32) -> (r: core::result::Result<(), IoError>) { unimplemented!() }
+}
+#[verifier::external_body]
+pub fn vx_group_v4() -> (r: std::net::Ipv4Addr) { unimplemented!() }
+#[verifier::external_body]
+pub fn vx_group_v6() -> (r: std::net::Ipv6Addr) { unimplemented!() }
+#[derive(Clone, Copy, PartialEq, Eq, Structural)]
+pub struct IpType(pub u8);
+impl IpType {
+    pub const V4: IpType = IpType(0b01);
+    pub const V6: IpType = IpType(0b10);
+    pub const BOTH: IpType = IpType(0b11);
+}
+impl DnsCache {
+    // which address families of which interface the cache was told to forget, in call order
+    pub uninterp spec fn forgotten(&self) -> Seq<(u32, IpType)>;
+    #[verifier::external_body]
+    pub fn remove_addrs_on_disabled_intf(&mut self, disabled_if_index: u32, ip_type: IpType)
+        ensures final(self).forgotten() == old(self).forgotten().push((disabled_if_index, ip_type)),
+    { unimplemented!() }
+}
+impl Zeroconf {
+    #[verifier::external_body]
+    pub fn notify_monitors(&mut self, event: DaemonEvent)
+        ensures *final(self) == (Zeroconf { monitors: final(self).monitors, ..*old(self) }),
+    { unimplemented!() }
+    #[verifier::external_body]
+    pub fn del_addr_in_my_services(&mut self, addr: &IpAddr)
+        ensures *final(self) == (Zeroconf { my_services: final(self).my_services, ..*old(self) }),
+    { unimplemented!() }
+}
+pub open spec fn idx_of(intf: Interface) -> u32 { match intf.index { Some(i) => i, None => 0u32 } }
+// the interface is known and has that address
+pub open spec fn has_addr(z: Zeroconf, intf: Interface) -> bool {
+    z.my_intfs@.contains_key(idx_of(intf)) && z.my_intfs@[idx_of(intf)].addrs@.contains(intf.addr)
+}
+pub open spec fn last_addr(z: Zeroconf, intf: Interface) -> bool {
+    z.my_intfs@[idx_of(intf)].addrs@.remove(intf.addr) =~= Set::<IfAddr>::empty()
+}
